@@ -4,6 +4,7 @@ set -e
 cd "$(dirname "$0")"
 export CARGO_NET_OFFLINE=true CARGO_TARGET_DIR="$PWD/.cache/target"
 mkdir -p .cache evidence replays
+python3 gen_registry.py
 python3 translator/translate.py /repo coq/Gen/Tables.v
 cd coq
 coq_makefile -f _CoqProject -o Makefile $(find . -name '*.v' ! -name 'audit_*' ! -name 'assum_*' | sed 's|^\./||' | sort)
